@@ -45,6 +45,26 @@ CHECKS = {
    text="TLC proves composability for all lengths <=24 and splits, checks the block decomposition of maskGo for every length 0..300 against the reference pattern, and writes the expected key-byte index pattern and returned rotation for every length 0..4200; the harness runs every length x alignment 0..63 x implementation with distinguishable key bytes, guard bytes and page-boundary placement and compares position by position.",
    note="Byte-level XOR and out-of-bounds behaviour are observed (projection, guards, page faults), not derived by TLC; arm64 assembly is not executable here.",
    design="6/C17"),
+ "C11": dict(
+   technique="TLA+ decision operator WSHandshake!AcceptDecision evaluated by TLC over the request grammar (one TLC state per request, declarative invariants restating the recursive subprotocol selection); rows replayed through the real Accept with wire-form requests",
+   text="TLC enumerates the request grammar (method, version, multi-line/multi-token Connection and Upgrade headers, version values, nine key variants, subprotocol lists), checks declarative invariants of the decision, and writes the expected outcome per row; the harness builds each request in wire form, parses it with net/http, calls Accept with a hijackable ResponseWriter and compares upgrade/status class/accept key/subprotocol; pipelined frames go through a real net/http server on loopback.",
+   note="SHA-1/base64 computed independently by the harness; for invalid requests only '>=400 and not hijacked' is judged.",
+   design="6/C11"),
+ "C12": dict(
+   technique="TLA+ operator WSHandshake!AuthDecision with a structural origin grammar and token-level Glob; TLC cross-checks Glob against an independent NFA matcher (model checking) and writes the decision table replayed through the real Accept",
+   text="46512 (Host, Origin, patterns, skip) rows decided by TLC and replayed through Accept: must-accept rows get 101, must-refuse rows 403 without hijack; forms that name no host are left open as in the statement.",
+   note="URL structure per RFC 3986 is the reference for what 'names a host'; open rows are recorded, not judged.",
+   design="6/C12"),
+ "C13": dict(
+   technique="TLA+ operator WSHandshake!VerifyResponse evaluated by TLC over the response grammar (one TLC state per response) and replayed through the real Dial with a scripted RoundTripper; request inspection over all DialOptions combinations",
+   text="30720 (quick) response rows x client modes decided by TLC and replayed: Dial must return a connection exactly for acceptable responses; the request the library sends is inspected for 90 option combinations (override attempts of Upgrade/Connection/Key/Version, Host override, subprotocols, extension offer) and key freshness across all dials.",
+   note="Case-variant subprotocol answers are left open. SHA-1 computed independently.",
+   design="6/C13"),
+ "C14": dict(
+   technique="TLA+ operators ServerSelect/ClientVerify with the theorem Agree checked by TLC; decision tables over offer lists and response shapes replayed through real Accept/Dial, each successful handshake followed by a compressed exchange with a reference peer applying the agreed parameters",
+   text="TLC checks Agree for all mode pairs, fallback/echo invariants on every offer list, and writes expected selections; the harness compares the real response header, rejects what must be rejected, and then exchanges 4+4 cross-referencing compressed messages with a raw peer using compress/flate with exactly the negotiated context-takeover flags, so a flag taken from the wrong side fails to decode.",
+   note="Go compress/flate is the reference codec; responses from non-compliant servers are outside the statement.",
+   design="6/C14"),
  "C03": dict(
    technique="TLA+ reference decoder (spec/WSRecv.tla) model-checked by TLC; TLC-generated behaviours (all frame streams up to a length bound) replayed into the real Conn and compared with the specification's predicted reaction",
    text="TLC checks the reference decoder automaton and enumerates every frame stream of <=3 (quick) / <=4 (thorough) letters over a 43-letter alphabet of valid and single-violation frames; each is serialised by an independent raw peer and fed to a real Conn in both roles, compression modes and transport chunkings; messages, Pongs, Close echo, failing read and absence of panics are compared with React/Run. Exhaustive within the alphabet and length bound.",
